@@ -459,6 +459,17 @@ def run(project: Project, rep, tier: str):
     rep.assume("abscissae of consecutive critical points are strictly increasing (caller's precondition); p ≥ 1")
     check_pnorm(project, rep)
     check_sup_and_wiring(project, rep)
+    # NM-DTYPE: the critical pairs handed to the integrals mix grid abscissae (floating-point) with the landscape's samples: a
+    # buffer typed by the samples truncates the abscissae when the landscape was given integer values
+    from . import dtype_rule
+    from .oneshot import reachable_functions
+    roots = [q for q in ("persim.landscapes.approximate.PersLandscapeApprox.p_norm", "persim.landscapes.approximate.PersLandscapeApprox.sup_norm",
+                         "persim.landscapes.exact.PersLandscapeExact.p_norm", "persim.landscapes.exact.PersLandscapeExact.sup_norm")
+             if q in project.functions]
+    chain = [fi_ for fi_ in reachable_functions(project, roots) if "compute_landscape" not in fi_.qualname]
+    if chain:
+        dtype_rule.run_on(project, rep, "NM-DTYPE", chain)
+    rep.floor("NM-DTYPE", 1)
     for rn, n in (("NM-FORM", 0 if SHAPES_STATUS.get("v") == "ok" else 1), ("NM-HOM", 0 if SHAPES_STATUS.get("v") == "ok" else 1),
                   ("NM-ARMS", 0 if SHAPES_STATUS.get("v") == "ok" else 1), ("NM-SUP", 4), ("NM-WIRE", 4)):
         rep.floor(rn, n)
